@@ -125,3 +125,23 @@ theorem name_subexpr_evaluated_twice (reg : Registry) (root : Json) (fuel : Nat)
   rfl
 
 end Hbs.C13
+
+/-! ### number literals: which serde_json parser the crate is built with (regenerated from Cargo.toml) -/
+namespace Hbs.C13
+open Hbs
+
+/-- the crate selects serde_json's `float_roundtrip` feature: re-proved against the REGENERATED
+    `Generated.serdeFloatRoundtrip` on every run (it fails if the feature is dropped from Cargo.toml) -/
+theorem float_roundtrip_enabled : Generated.serdeFloatRoundtrip = true := by decide
+
+/-- … hence a number literal (and a numeric string compared by `gt`/`lt`/…) is converted by the
+    correctly rounding parser, whatever its number of digits and its exponent: the best-effort parser
+    of the default serde_json build – one multiplication by a table power of ten, up to an ulp off for
+    literals such as `108E-28` – is not the one in use (it was before the repair recorded in
+    known_findings.json as `fixed: property=C13 e78d0f2`). -/
+theorem number_text_correctly_rounded (s : Str) : Num.parsePrefix s = Num.parsePrefixExact s := by
+  unfold Num.parsePrefix
+  rw [float_roundtrip_enabled]
+  rfl
+
+end Hbs.C13
